@@ -3,6 +3,7 @@ package main
 import (
 	"go/ast"
 	"go/token"
+	"sort"
 )
 
 // R-LAZY-PASSTHROUGH: raw pass-through of still-lazy bytes in Size/Marshal
@@ -34,13 +35,24 @@ func (c *Ctx) ruleLazyPassthrough(rule string) {
 		}
 		R.Check(ok, rule, k, P.Pos(fi.Decl), "returns flags&MarshalDeterministic == 0", "predicate no longer returns exactly `opts.flags & MarshalDeterministic == 0`: raw lazy bytes may be passed through under deterministic marshaling")
 	}
+	// lazyBuffer and the helpers that hand its result on to their callers
+	sources, _ := c.lazyBufferSources()
+	keys := []string{"internal/protolazy.(*XXX_lazyUnmarshalInfo).SizeField", "internal/protolazy.(*XXX_lazyUnmarshalInfo).AppendField"}
+	for k := range sources {
+		keys = append(keys, k)
+	}
+	sort.Strings(keys)
 	for _, fi := range P.FuncsIn("internal/impl") {
 		if fi.Decl.Body == nil {
 			continue
 		}
 		info := fi.Info()
-		calls := allCalls(info, fi.Decl.Body, "internal/impl.(*ExtensionField).lazyBuffer", "internal/protolazy.(*XXX_lazyUnmarshalInfo).SizeField", "internal/protolazy.(*XXX_lazyUnmarshalInfo).AppendField")
+		calls := allCalls(info, fi.Decl.Body, keys...)
 		if len(calls) == 0 {
+			continue
+		}
+		if _, isWrapper := sources[fi.Key]; isWrapper && fi.Key != lazyBufKey {
+			R.Exempt(rule, fi.Key+" wrapper", P.Pos(fi.Decl), "returns the lazy buffer (or its single payload) to its callers without emitting it; every call of this helper is checked as a pass-through site")
 			continue
 		}
 		g := fi.CFG()
